@@ -2,7 +2,7 @@ import json
 import datetime as dt
 
 from mindsdb_sql.parser.ast.base import ASTNode
-from mindsdb_sql.parser.utils import indent
+from mindsdb_sql.parser.utils import indent, param_to_string
 
 
 class CreateChatBot(ASTNode):
@@ -37,12 +37,13 @@ class CreateChatBot(ASTNode):
     def get_string(self, *args, **kwargs):
 
         params = self.params.copy()
-        params['model'] = self.model.to_string() if self.model else 'NULL'
-        params['database'] = self.database.to_string()
+        if self.model:
+            params['model'] = '.'.join(self.model.parts)
+        params['database'] = '.'.join(self.database.parts)
         if self.agent:
-            params['agent'] = self.agent.to_string()
+            params['agent'] = '.'.join(self.agent.parts)
 
-        using_ar = [f'{k}={repr(v)}' for k, v in params.items()]
+        using_ar = [param_to_string(k, v) for k, v in params.items()]
 
         using_str = ', '.join(using_ar)
 
@@ -66,7 +67,7 @@ class UpdateChatBot(ASTNode):
     def get_string(self, *args, **kwargs):
         params = self.params.copy()
 
-        set_ar = [f'{k}={repr(v)}' for k, v in params.items()]
+        set_ar = [param_to_string(k, v) for k, v in params.items()]
         set_str = ', '.join(set_ar)
 
         out_str = f'UPDATE CHATBOT {self.name.to_string()} SET {set_str}'
